@@ -77,12 +77,17 @@ def cases(tier: str, seed: int) -> list[dict]:
             for theory in ("EB", "Timo"):
                 for conn in ("fixed", "hinged"):
                     out.append({"sc": "connection", "kind": "beam", "dim": bdim, "et": ["SEG2", "SEG3"][bdim % 2], "theory": theory, "conn": conn, "solver": "scipy"})
+            # three members meeting in one point, welded together
+            out.append({"sc": "joint3", "kind": "beam", "dim": bdim, "et": ["SEG2", "SEG3"][(bdim + r) % 2], "theory": ("EB", "Timo")[(bdim + r) % 2], "conn": "fixed", "solver": "scipy"})
         for kind, dim, et in [("hyperelastic", 2, "TRI3"), ("hyperelastic", 3, "TETRA4"), ("inelastic", 2, "QUAD4"), ("inelastic", 3, "TETRA4")]:
             out.append({"sc": "newton", "kind": kind, "dim": dim, "et": et, "solver": "scipy"})
         for kind, dim, et in [("elastic", 2, "QUAD4"), ("thermal", 2, "TRI3"), ("probe", 2, "TRI3"), ("elastic", 3, "TETRA4"), ("beam2", 2, "SEG2"), ("weakforms", 2, "TRI6"), ("probe-unsym", 2, "QUAD4")]:
             out.append({"sc": "history", "kind": kind, "dim": dim, "et": et, "solver": "scipy"})
         out.append({"sc": "lsq", "kind": "phasefield", "dim": 2, "et": "TRI3", "solver": "lsq_linear"})
         out.append({"sc": "lsq", "kind": "phasefield", "dim": 2, "et": "QUAD4", "solver": "lsq_linear"})
+        # a damage value prescribed on some nodes (the usual way to enter a pre-crack): the damage sub-problem is then a reduced system
+        for pfs in ("BoundConstrain", "History", "HistoryDamage"):
+            out.append({"sc": "lsq", "kind": "phasefield", "dim": 2, "et": ["TRI3", "QUAD4"][r % 2], "solver": "lsq_linear" if pfs == "BoundConstrain" else "scipy", "precrack": pfs})
     for i, c in enumerate(out):
         c["id"] = f"C04-{i:05d}-{c['sc']}-{c['kind']}-{c['et']}-{c['solver']}"
         c["index"] = i
@@ -232,7 +237,7 @@ def run_case(case: dict, ctx: Ctx) -> None:
         return _suite.run_suite(case, ctx, PROP)
     rng = np.random.default_rng([case["seed"], NUM, case["index"]])
     {"history": run_history, "bcprog": run_bcprog, "orphans": run_orphans, "backend": run_backend, "lagrange": run_lagrange,
-     "connection": run_connection, "newton": run_newton, "lsq": run_lsq}[case["sc"]](case, ctx, rng)
+     "connection": run_connection, "joint3": run_joint3, "newton": run_newton, "lsq": run_lsq}[case["sc"]](case, ctx, rng)
 
 
 # ------------------------------------------------------------------------------------------
@@ -461,6 +466,21 @@ def run_connection(case, ctx, rng):
     ctx.check("lagrange-vs-kkt", relerr(u, ref), 1e-7, key + "/vs-kkt")
     ctx.check("constraint-values", relerr(u[sh.known], sh.dir_sum[sh.known], scale=1.0), 1e-10, key + "/constraint-values")
     ctx.finite("lagrange-finite", u, key + "/finite")
+    # a further Dirichlet condition entered after the system with its multipliers has been assembled and solved (conditions may come
+    # in any order): a non-zero value on a tip translation that was free so far
+    if conn == "fixed":
+        with ctx.monitored("no-exception", key + "/late-dirichlet/raised"):
+            with quiet():
+                late = float(rng.uniform(0.5, 2.0)) * 1e-3
+                sh.dirichlet(tip, [late], ["y"])
+                u1 = simu.Solve()
+                K1, _, _, F1 = simu.Get_K_C_M_F()
+                fN1 = simu.Bc_vector_Neumann()
+            lag_rows1 = [(bc_.dofs, bc_.lagrangeCoefs, float(bc_.dofsValues[0])) for bc_ in simu.Bc_Lagrange]
+            ref1 = _kkt_reference(K1[:n, :n].toarray(), F1.toarray().ravel()[:n] + fN1, list(sh.known), sh.dir_sum[sh.known], lag_rows1)
+            ctx.check("lagrange-vs-kkt", relerr(u1, ref1), 1e-7, key + "/late-dirichlet/vs-kkt")
+            ctx.check("constraint-values", relerr(u1[sh.known], sh.dir_sum[sh.known], scale=late), 1e-9, key + "/late-dirichlet/constraint-values")
+            ctx.event("late-dirichlet-with-connection")
     # the connection is released on the same simulation object: Bc_Init, then each member is held on its own (both ends of the
     # frame clamped) and the two corner nodes are loaded differently; no multiplier is left in the system
     with ctx.monitored("no-exception", key + "/released/raised"):
@@ -482,6 +502,49 @@ def run_connection(case, ctx, rng):
         ctx.require("released-members-independent", float(np.abs(U2[corner[0]] - U2[corner[1]]).max()) > 1e-9 * np.abs(u2).max(), key + "/released/independent")
     ctx.describe(f"connection/{bdim}D/{et}/{theory}/{conn}", np.abs(u).max() > 0, bdim=bdim, theory=theory, conn=conn, n_lagrange=len(lag_rows),
                  unknowns_tied=sorted({bc_.unknowns[0] for bc_ in lag}))
+
+
+def run_joint3(case, ctx, rng):
+    """Three members meeting in one point (a T-shaped frame), welded by one `add_connection_fixed` on the three coincident nodes;
+    the solution must carry one value per tied unknown at the joint and equal the dense KKT solve with the harness' own tie rows."""
+    bdim, theory, et = case["dim"], case["theory"], case["et"]
+    key = f"C04/joint3/{bdim}D/{theory}"
+    ctx.default_key = key
+    from EasyFEA import ElemType, Mesher
+    from EasyFEA.Geoms import Line, Point
+
+    L1, L2, L3 = (float(x) for x in rng.uniform(1, 2, 3))
+    with ctx.monitored("no-exception", key + "/raised"):
+        with quiet():
+            lines = [Line(Point(0, 0), Point(L1, 0), L1 / 3), Line(Point(L1, 0), Point(L1, L2), L2 / 3), Line(Point(L1, 0), Point(L1 + L3, 0), L3 / 3)]
+            beams = [Models.Beam.Isotropic(bdim, l, bcm.rect_section(0.1, 0.2), 1e4, 0.3) for l in lines]
+            mesh = Mesher().Mesh_Beams(beams, elemType=ElemType(et))
+            simu = Simulations.Beam(mesh, Models.Beam.BeamStructure(beams), useTimoshenko=(theory == "Timo"))
+            mesh = simu.mesh
+            clamp, joint = mesh.Nodes_Point(Point(0, 0)), mesh.Nodes_Point(Point(L1, 0))
+            tip2, tip3 = mesh.Nodes_Point(Point(L1, L2)), mesh.Nodes_Point(Point(L1 + L3, 0))
+            sh = Shadow(simu)
+            sh.dirichlet(clamp, [0.0] * sh.dof_n, sh.unknowns)
+            simu.add_connection_fixed(joint)
+            simu.add_neumann(tip2, [1.0], ["x"])
+            simu.add_neumann(tip3, [-0.7], ["y"])
+            u = simu.Solve()
+            K, _, _, F = simu.Get_K_C_M_F()
+            fN = simu.Bc_vector_Neumann()
+    ctx.require("joint-three-nodes", len(joint) == 3, key + "/joint-nodes", n=len(joint))
+    n = sh.N
+    U = u.reshape(-1, sh.dof_n)
+    ctx.check("connection-satisfied", float(np.abs(U[joint] - U[joint[0]]).max()) / max(np.abs(u).max(), 1e-300), 1e-9, key + "/one-value-at-the-joint")
+    # the harness' own rows: node 0 tied to node 1 and to node 2, every unknown
+    rows = []
+    for j in (1, 2):
+        for c in range(sh.dof_n):
+            rows.append((np.array([joint[0] * sh.dof_n + c, joint[j] * sh.dof_n + c]), np.array([1.0, -1.0]), 0.0))
+    ref = _kkt_reference(K[:n, :n].toarray(), F.toarray().ravel()[:n] + fN, list(sh.known), sh.dir_sum[sh.known], rows)
+    ctx.check("lagrange-vs-kkt", relerr(u, ref), 1e-7, key + "/vs-kkt")
+    ctx.require("joint-transmits-load", float(np.abs(U[tip3]).max()) > 1e-9 and float(np.abs(U[tip2]).max()) > 1e-9, key + "/loaded")
+    ctx.finite("lagrange-finite", u, key + "/finite")
+    ctx.describe(f"joint3/{bdim}D/{et}/{theory}", np.abs(u).max() > 0, bdim=bdim, theory=theory, n_lagrange=len(simu.Bc_Lagrange))
 
 
 def run_newton(case, ctx, rng):
@@ -516,23 +579,39 @@ def run_newton(case, ctx, rng):
 def run_lsq(case, ctx, rng):
     """bounded least squares through the phase-field BoundConstrain path: the damage sub-problem must satisfy
     its bounds and the displacement sub-problem its constraints."""
-    key = "C04/lsq/phasefield"
+    pre = case.get("precrack")
+    key = "C04/lsq/phasefield" if not pre else f"C04/precrack/phasefield/{pre}"
     ctx.default_key = key
+    d = np.zeros(1)
     with ctx.monitored("no-exception", key + "/raised"):
-        simu, info = _sims.make("phasefield", rng, 2, case["et"], bc=False, pfsolver="BoundConstrain")
+        simu, info = _sims.make("phasefield", rng, 2, case["et"], bc=False, pfsolver=pre or "BoundConstrain")
         with quiet():
-            worst = 0.0
+            worst, worstd = 0.0, 0.0
             dprev = simu.damage
+            mesh = simu.mesh
+            # pre-crack: the nodes of the lower half nearest to the middle of the bar
+            xm = info["Lx"] / 2
+            col = mesh.coord[np.argmin(np.abs(mesh.coord[:, 0] - xm)), 0]
+            ncrack = np.where((np.abs(mesh.coord[:, 0] - col) < 1e-9) & (mesh.coord[:, 1] <= mesh.coord[:, 1].mean()))[0]
+            dval = float(rng.choice([1.0, 0.6]))
             for step in range(1, 4):
                 simu.Bc_Init()
                 sh = Shadow(simu, simu.ProblemTypes.elastic)
                 sh.dirichlet(info["n0"], [0.0, 0.0], ["x", "y"])
                 sh.dirichlet(info["nL"], [2e-3 * step], ["x"])
+                if pre:
+                    simu.add_dirichlet(ncrack, [dval], ["d"], problemType=simu.ProblemTypes.damage)
                 u, d, conv = simu.Solve()
                 simu.Save_Iter()
                 worst = max(worst, relerr(u[sh.known], sh.dir_sum[sh.known], scale=np.abs(sh.dir_sum).max()))
-                ctx.check("lsq-bounds", max(0.0, float(np.max(dprev - d)), float(np.max(d - 1.0))), 1e-9, key + "/bounds", step=step)
+                if pre:
+                    worstd = max(worstd, float(np.abs(np.asarray(d)[ncrack] - dval).max()))
+                if not pre or pre == "BoundConstrain":
+                    ctx.check("lsq-bounds", max(0.0, float(np.max(dprev - d)), float(np.max(d - 1.0))), 1e-9, key + "/bounds", step=step)
                 dprev = d.copy()
     ctx.check("constraint-values", worst, 1e-12, key + "/constraint-values")
+    if pre:
+        ctx.check("constraint-values", worstd, 1e-12, key + "/damage-constraint-values", nodes=int(ncrack.size), value=dval)
+        ctx.event("precrack-solved")
     ctx.finite("finite-solution", d, key + "/finite")
-    ctx.describe(f"lsq/phasefield/{case['et']}", float(np.max(d)) > 0, et=case["et"], dmax=float(np.max(d)))
+    ctx.describe(f"lsq/phasefield/{case['et']}" + (f"/precrack-{pre}" if pre else ""), float(np.max(d)) > 0, et=case["et"], dmax=float(np.max(d)))
